@@ -20,6 +20,9 @@ EXPLANATION = (
 EXPLANATION += (
     ' ADDED: C19.3 decides the rate encoding by cases (rate < 1 -> -int(1/rate), else int(rate)) whatever its spelling. C19.5: the fresh header sizes the data section with the blockshape component of each axis (rule of C03.4), which matters exactly for the accepted non-square settings.'
 )
+EXPLANATION += (
+    ' C19.1 also: a first blockshape component of 1 is accepted only through the 2D entry (the disjunct is conjoined with a flag that only define_blockshape_2d sets). C19.6: every accepted layout reads back through canonical addresses, decodes and crops (rules of C02 over all layout modes, non-square ones included).'
+)
 ASSUMPTIONS = ['assert statements are active (python is not run with -O)',
                'the accepted settings then read back faithfully to the extent C01-C03 decide']
 NOT_DECIDED = ('The completeness half ("every valid combination is accepted") beyond the fact that the checks of C19.1 are '
